@@ -292,6 +292,9 @@ def run(repo: Repo) -> Result:
             continue
         ok = got == [(name, alias)] and not arrows
         detail = f"parsed as component {name!r}" + (f" with alias {alias!r}" if alias else "")
+        if not ok and interp.lost_patterns:
+            res.undecide("C06.R1", construct, f"not matched by the reconstructed patterns, but the text of a pattern could not be reconstructed by constant folding: `{interp.lost_patterns[0]}`", anchor_decl.where())
+            continue
         if not ok:
             detail = f"the declaration `{line}` is parsed as {got}" + (f" plus arrows {arrows}" if arrows else "") + f" instead of [({name!r}, {alias!r})]: the documented form is not (correctly) in the language of the declaration pattern"
         res.add("C06.R1", construct, ok, detail, anchor_decl.where(), kind="regex-language")
@@ -305,6 +308,9 @@ def run(repo: Repo) -> Result:
         extra = [d for d in decls if d not in ((tail, None), (head, None))]
         ok = got == [(tail, head)] and not extra
         detail = f"{tail} depends on {head}"
+        if not ok and interp.lost_patterns:
+            res.undecide("C06.R1", construct, f"not matched by the reconstructed patterns, but the text of a pattern could not be reconstructed by constant folding: `{interp.lost_patterns[0]}`", anchor_dep.where())
+            continue
         if not ok:
             detail = f"the dependency line `{line}` is parsed as {got} instead of [{(tail, head)}] (dependor, dependee)" + (f" and declares {extra}" if extra else "") + ": the documented form is not (correctly) in the language of the dependency pattern"
         res.add("C06.R1", construct, ok, detail, anchor_dep.where(), kind="regex-language")
